@@ -85,3 +85,31 @@ Proof. apply discipline_prefix_safe_lemma. Qed.
 
 Lemma segment_fits ps log frags : segment ps log = Some frags -> log = concat frags /\ fits ps frags.
 Proof. apply segment_sound. Qed.
+
+(* ---- error propagation inventory regenerated from the source ---- *)
+Lemma propagates_backup_ok : all_true propagates_backup = true.
+Proof. vm_compute. reflexivity. Qed.
+Lemma propagates_copy_ok : all_true propagates_copy = true.
+Proof. vm_compute. reflexivity. Qed.
+Lemma propagates_merge_ok : all_true propagates_merge = true.
+Proof. vm_compute. reflexivity. Qed.
+Lemma propagates_rewrite_trees_ok : all_true propagates_rewrite_trees = true.
+Proof. vm_compute. reflexivity. Qed.
+Lemma propagates_rewrite_meta_ok : all_true propagates_rewrite_meta = true.
+Proof. vm_compute. reflexivity. Qed.
+Lemma propagates_repair_snapshots_ok : all_true propagates_repair_snapshots = true.
+Proof. vm_compute. reflexivity. Qed.
+Lemma propagates_repair_index_ok : all_true propagates_repair_index = true.
+Proof. vm_compute. reflexivity. Qed.
+Lemma propagates_forget_ok : all_true propagates_forget = true.
+Proof. vm_compute. reflexivity. Qed.
+Lemma propagates_prune_ok : all_true propagates_prune = true.
+Proof. vm_compute. reflexivity. Qed.
+Lemma propagates_config_ok : all_true propagates_config = true.
+Proof. vm_compute. reflexivity. Qed.
+Lemma propagates_key_add_ok : all_true propagates_key_add = true.
+Proof. vm_compute. reflexivity. Qed.
+Lemma propagates_key_delete_ok : all_true propagates_key_delete = true.
+Proof. vm_compute. reflexivity. Qed.
+Lemma propagates_writer_ok : all_true propagates_writer = true.
+Proof. vm_compute. reflexivity. Qed.
